@@ -53,8 +53,9 @@ func (interp *Interpreter) SingleStepStateTransition(pc ProgramCounter) (ExitRea
 	case PANIC, HALT:
 		// pvmLogger.Debugf("   gas: %d", interp.Gas)
 		return exitReason, 0
-	case HOST_CALL: // host-call: newPC = pc
-		return exitReason, newPC
+	case HOST_CALL:
+		// like the block engine, report the counter at which execution resumes after the host call
+		return exitReason, pc + skipLength + 1
 	case PAGE_FAULT:
 		// (A.7) the faulting instruction changed nothing: the counter stays on it
 		return exitReason, pc
